@@ -114,6 +114,50 @@ def job_validate(m, c, B, relabel=False):
     return res
 
 
+def job_validate_graphs(max_len=13):
+    """larger must-link components than the symbolic end-point jobs reach, as structured families (concrete enumeration, real
+    add_mlcl_constraint): chains of 2..max_len samples with scattered index values and shuffled pair order / orientation, stars and two
+    components; every cannot-link pair inside a component must be rejected, every pair across components accepted"""
+    res = _new()
+    mc = loader.real("mlcl")
+    lin = loader.real("linear._linear_geminis")
+    import random
+    rng = random.Random(5)
+    seen = set()
+    cases = []
+    for L in range(2, max_len + 1):
+        idx = rng.sample(range(0, 200), L + 2)
+        chain, outside = idx[:L], idx[L:]
+        edges = [(chain[i], chain[i + 1]) for i in range(L - 1)]
+        for variant in range(2):
+            e = [(b, a) if (variant and k % 2) else (a, b) for k, (a, b) in enumerate(edges)]
+            if variant:
+                rng.shuffle(e)
+            cases.append((f"chain{L}/v{variant}/ends", e, [(chain[0], chain[-1])]))
+            cases.append((f"chain{L}/v{variant}/reversed-ends", e, [(chain[-1], chain[0])]))
+            cases.append((f"chain{L}/v{variant}/inner", e, [(chain[L // 3], chain[-1])] if L >= 3 else [(chain[0], chain[1])]))
+            cases.append((f"chain{L}/v{variant}/outside", e, [(chain[0], outside[0]), (outside[1], chain[-1])]))
+        star = [(chain[0], c) for c in chain[1:]]
+        cases.append((f"star{L}/leaves", star, [(chain[1], chain[-1])]))
+        if L >= 4:
+            h = L // 2
+            two = [(chain[i], chain[i + 1]) for i in range(h - 1)] + [(chain[i], chain[i + 1]) for i in range(h, L - 1)]
+            cases.append((f"two-components{L}/across", two, [(chain[0], chain[-1])]))
+            cases.append((f"two-components{L}/within", two, [(chain[h], chain[-1])] if L - h >= 2 else [(chain[0], chain[h - 1])]))
+    for name, ml, cl in cases:
+        res["paths"] += 1
+        rep_ = {"kind": "validate", "ml": [list(p) for p in ml], "cl": [list(p) for p in cl]}
+        bad = replay(rep_)
+        want = oracle_reject(ml, cl)
+        res["obligations"].append({"name": f"validate-graphs/{name}: {'rejected' if want else 'accepted'}", "verdict": "sat" if bad else "unsat", "how": "concrete run of add_mlcl_constraint vs union-find"})
+        sig = f"{PROP}:validate:{'accepts-contradictory' if want else 'rejects-consistent'}"
+        if bad and sig not in seen:
+            seen.add(sig)
+            res["violations"].append({"signature": sig, "what": f"{name}: must_link={rep_['ml']} cannot_link={rep_['cl']} is wrongly {'accepted' if want else 'rejected'}", "replay": rep_})
+    res["samples"].append({"cases": len(cases)})
+    return res
+
+
 def job_gradient(ml, cl, n_samples=4, Kc=2, max_batch=3, timeout_q=10.0):
     loader.install()
     res = _new()
@@ -269,9 +313,12 @@ def jobs(tier):
         out.append({"name": f"validate/m{m}c{c}B{B}", "target": "checks.c14:job_validate", "kwargs": dict(m=m, c=c, B=B), "timeout": 280 if q else 3000})
     for m, c, B in ([(1, 1, 3), (2, 1, 2)] if q else [(1, 1, 5), (2, 1, 3), (1, 2, 3)]):
         out.append({"name": f"validate-relabelled/m{m}c{c}B{B}", "target": "checks.c14:job_validate", "kwargs": dict(m=m, c=c, B=B, relabel=True), "timeout": 280 if q else 3000})
+    out.append({"name": "validate-graphs", "target": "checks.c14:job_validate_graphs", "kwargs": dict(max_len=13 if q else 24), "timeout": 280})
     pairsets = [([(0, 1)], [(2, 3)]), ([(3, 1)], [(1, 0)]), ([(0, 2), (2, 3)], []), ([], [(1, 3), (0, 2)]),
                 # one sample in the same slot of several pairs of one kind (accumulation into one row)
-                ([(0, 1), (0, 2)], []), ([], [(3, 1), (2, 1)]), ([(0, 1), (0, 2)], [(0, 3), (1, 3)])]
+                ([(0, 1), (0, 2)], []), ([], [(3, 1), (2, 1)]), ([(0, 1), (0, 2)], [(0, 3), (1, 3)]),
+                # the same pair listed in both orientations / twice: every listed pair contributes its own term
+                ([(0, 1), (1, 0)], [(2, 3)]), ([(0, 1)], [(2, 3), (3, 2), (2, 3)])]
     if not q:
         pairsets += [([(0, 1), (2, 3)], [(1, 2)]), ([(2, 0)], [(3, 2), (1, 0)])]
     for ml, cl in pairsets:
